@@ -28,10 +28,12 @@ def main():
     run.assumptions += [
         "keys of a tensordict are unique (theorems carry Nodup of the key lists)",
         "comparison operators are modelled on operands without empty sub-tensordicts and without a leaf facing a node under one key",
-        "lazy stacks / tensorclasses / reduce=True / where / clamp(td, td) / all / any / logsumexp are checked by the per-key torch oracle only (extended domain)",
+        "tensorclasses / sub-tensordicts / params / all / any / logsumexp / std / var values are checked by the per-key torch oracle only (extended domain); lazy stacks, clamp, where and reduce=True are modelled",
     ]
     torch.set_num_threads(2)
     run.build_and_audit(["TdVerif.Props.C09"])
+    import c09_shape
+    c09_shape.source_shape(run)
     if run.tier == "thorough":
         run.leanchecker(["TdVerif.Props.C09"])
     drv = run.driver()
@@ -41,11 +43,16 @@ def main():
     S.stream_expand_as_right(ctx)
     S.stream_binary(ctx)
     S.stream_ternary(ctx)
+    S.stream_clamp_where(ctx)
     S.stream_compare(ctx)
     S.stream_unary(ctx)
     S.stream_reductions(ctx)
     S.stream_reduce_true(ctx)
+    S.stream_reduce_all(ctx)
+    S.stream_lazy_binary(ctx)
+    S.stream_binary_containers(ctx)
     S.extended_oracle(ctx)
+    S.container_matrix(ctx)
     run.finish("proof")
 
 
